@@ -92,8 +92,10 @@ def run_job(job):
     if job['mode'] == 'overrun-first':
         m0 = A.make(*items[0])
         body_end = m0['expect']['msg_len']
-        plans = [[]] + [[c] for c in range(1, body_end - 1)] + \
-            [[c, d] for c in range(1, body_end - 1, 5) for d in range(c + 1, body_end - 1, 7)]
+        n0 = len(m0['response'])
+        plans = [[]] + [[c] for c in range(1, n0)] + \
+            [[c, d] for c in range(1, body_end - 1, 5) for d in range(c + 1, body_end - 1, 7)] + \
+            [[body_end, d] for d in range(body_end + 1, n0)]
     elif job['mode'] == 'cuts2':
         plans = list(bytestream.cut_plans(total, 2 if total <= 200 else 1))
     elif job['mode'] == 'cuts1':
@@ -140,7 +142,8 @@ def run_job(job):
         for cuts in plans:
             if ri == 1 and len(cuts) not in (0, total - 1):
                 continue
-            case = dict(phases=[dict(rec=rec, items=items, cuts=cuts)])
+            case = dict(phases=[dict(rec=rec, items=items, cuts=cuts,
+                                     pause_between=(job['mode'] == 'overrun-first'))])
             result = warcsuite.run_case(case)
             res['evaluations'] += 1
             res['transitions'] += len(cuts) + 1
